@@ -356,6 +356,8 @@ impl Link {
         message: Protocol,
     ) -> Result<()> {
         tracing::trace!(target: TRACING_TARGET, ?src, ?dst, protocol = %message, "Send");
+        #[cfg(feature = "verif-hooks")]
+        tracing::trace!(target: "turmoil_verif", ?src, ?dst, protocol = %message, "Enqueue");
 
         self.rand_partition_or_repair(global_config, rand);
         let result = self.enqueue(global_config, rand, src, dst, message);
